@@ -1239,6 +1239,9 @@ pub enum StatCfg {
     /// random_bits(b) for EVERY b in 1..=64*limbs: each of the top two and the lowest requested bit must
     /// come out both 0 and 1 within `per_len` draws (false-alarm probability <= 6 * 2^-per_len per length)
     BitsEveryLength { limbs: usize, boxed: bool, int: bool, per_len: u32 },
+    /// `random()` of a full-width type: in every limb, bits 0, 31, 32 and 63 must each take both values within
+    /// `per` draws (for Odd all but bit 0 of limb 0). kind: 0 Uint, 1 Int, 2 Wrapping, 3 NonZero, 4 Odd
+    RandomEveryLimb { limbs: usize, kind: u8, per: u32 },
     /// Odd<Uint<N>>: cells over bits 1..=8 ; bit 0 must be set
     Odd { limbs: usize },
     /// NonZero<Limb>/Uint random: cells over low byte
@@ -1369,6 +1372,18 @@ fn stat_configs(tier: Tier) -> Vec<StatCfg> {
     if tier == Tier::Thorough {
         v.push(StatCfg::BitsEveryLength { limbs: 16, boxed: false, int: false, per_len: 512 });
         v.push(StatCfg::BitsEveryLength { limbs: 17, boxed: true, int: false, per_len: 512 });
+    }
+    for kind in 0..5u8 {
+        for limbs in [1usize, 2, 3, 4, 8] {
+            if tier == Tier::Quick && limbs == 8 && kind > 0 {
+                continue;
+            }
+            v.push(StatCfg::RandomEveryLimb { limbs, kind, per: 512 });
+        }
+    }
+    if tier == Tier::Thorough {
+        v.push(StatCfg::RandomEveryLimb { limbs: 16, kind: 0, per: 512 });
+        v.push(StatCfg::RandomEveryLimb { limbs: 32, kind: 0, per: 512 });
     }
     v.push(StatCfg::Odd { limbs: 1 });
     v.push(StatCfg::Odd { limbs: 2 });
@@ -1587,6 +1602,72 @@ fn exec_stat(p: &StatPlan, out: &mut RunOut) {
             out.count("probe:every-bit-length-bit-frequency-checked");
             out.state(format!("stat|{}", cfgsig));
             out.sample = Some(json!({"config": cfgsig, "draws": checked, "check": "each of the top two and the lowest requested bit takes both values at every bit length"}));
+            return;
+        }
+        StatCfg::RandomEveryLimb { limbs, kind, per } => {
+            let api = match kind {
+                0 => Api::UintRandom,
+                1 => Api::IntRandom,
+                2 => Api::WrappingUint,
+                3 => Api::NzUint,
+                _ => Api::OddUint,
+            };
+            let q = Plan {
+                api,
+                limbs: *limbs,
+                front: Front::Infallible,
+                modulus: vec![],
+                bit_length: 0,
+                precision: 64 * *limbs as u32,
+                modulus_id: 0,
+                tape: TapePlan::default(),
+                compare_boxed: false,
+                enumerate_failures: false,
+                healthy_from: None,
+                recover: false,
+            };
+            let cfgsig = format!("{:?}", p.cfg).replace(' ', "");
+            let watch = [0u32, 31, 32, 63];
+            let mut seen = vec![[[false; 2]; 4]; *limbs];
+            let mut n = 0u64;
+            for _ in 0..*per {
+                match call(&q, api, &mut tape) {
+                    Res::Val { words, .. } if words.len() == *limbs => {
+                        for (i, w) in words.iter().enumerate() {
+                            for (k, &b) in watch.iter().enumerate() {
+                                seen[i][k][((w >> b) & 1) as usize] = true;
+                            }
+                        }
+                        n += 1;
+                    }
+                    other => {
+                        out.viol("C19/error-spurious", format!("stat:{}", cfgsig), format!("{:?} on a healthy stream returned {}", api, other.kind()), None);
+                        return;
+                    }
+                }
+            }
+            for i in 0..*limbs {
+                for (k, &b) in watch.iter().enumerate() {
+                    if *kind == 4 && i == 0 && b == 0 {
+                        continue; // the forced low bit of an Odd
+                    }
+                    if !(seen[i][k][0] && seen[i][k][1]) {
+                        out.viol(
+                            "C19/never-produced",
+                            format!("stat:{}", cfgsig),
+                            format!("{:?} (limbs={}): bit {} of limb {} was {} in all {} draws from a uniform stream", api, limbs, b, i, if seen[i][k][1] { "1" } else { "0" }, per),
+                            None,
+                        );
+                        return;
+                    }
+                }
+            }
+            out.ev(&format!("stat/random-every-limb/{}/{}", cfgsig, n));
+            out.add("stat:draws", n);
+            out.count("probe:uniformity-tests");
+            out.count("probe:every-limb-bit-frequency-checked");
+            out.state(format!("stat|{}", cfgsig));
+            out.sample = Some(json!({"config": cfgsig, "draws": n, "check": "bits 0,31,32,63 of every limb take both values"}));
             return;
         }
         StatCfg::Odd { limbs } => {
